@@ -1,5 +1,7 @@
-"""C16: Cache-Control storability (part a: lexer/parser/TTL, complete model) -- see DESIGN.md."""
+"""C16: Cache-Control storability (part a: lexer/parser/TTL, complete model) and entity cache
+transparency over histories (part b: cache layer on the shared loader model) -- see DESIGN.md."""
 import os
+import re
 
 import anchors
 import vlib
@@ -18,9 +20,77 @@ def classify(case, detail):
     return None
 
 
+RULE_B = (" Part (b): histories of 3-8 client requests (2-3 plans over one entity universe, shared operation texts, repeats) over one "
+          "resolve.Resolver and one recording cache, each also run without a cache; Cache-Control values per subgraph response from the "
+          "part (a) generator (mostly storable), default TTL from a fixed set, cache faults by call index (Get error, Set error, partial Set, "
+          "evictions = partial hits). A history is non-trivial when something was stored and some lookup was a full hit.")
+
+
+def cache_properties(chk):
+    """Part (b) theorems live in C16/PropertiesCache.v: compile it, scrape Print Assumptions, add to the counts."""
+    pv = os.path.join(vlib.COQ, "C16", "PropertiesCache.v")
+    if not os.path.exists(pv):
+        return
+    src = open(pv).read()
+    names = re.findall(r"^\s*(?:Theorem|Corollary)\s+([A-Za-z0-9_']+)", src, re.M)
+    with vlib.Lock("coq"):
+        rc, out = vlib.sh("coqc -Q . Gv -w -notation-overridden C16/PropertiesCache.v", cwd=vlib.COQ, timeout=900)
+    closed = []
+    if rc == 0:
+        printed = re.findall(r"Print Assumptions\s+([A-Za-z0-9_']+)", src)
+        chunks = [c for c in re.split(r"(?=Closed under the global context|Axioms:)", out)
+                  if c.startswith("Closed under") or c.startswith("Axioms:")]
+        for name, chunk in zip(printed, chunks):
+            chk.coverage.setdefault("print_assumptions", {})[name] = chunk.strip()
+            axs = re.findall(r"^([A-Za-z0-9_.']+)\s*:", chunk, re.M)
+            if chunk.startswith("Closed under") or all(any(a.endswith(x) for x in vlib.ALLOWED_AXIOMS) for a in axs):
+                closed.append(name)
+    chk.coverage["obligations"] = chk.coverage.get("obligations", 0) + len(names)
+    chk.coverage["discharged"] = chk.coverage.get("discharged", 0) + len([t for t in names if t in closed])
+    chk.coverage["theorems"] = chk.coverage.get("theorems", []) + names
+    chk.coverage["checker_cmd"] = chk.coverage.get("checker_cmd", "") + " && coqc -Q . Gv C16/PropertiesCache.v"
+    bad = vlib.grep_forbidden(["C07"])
+    chk.coverage["forbidden_constructs"] = chk.coverage.get("forbidden_constructs", []) + bad
+    if rc != 0 or bad or len(closed) != len(names):
+        if not getattr(chk, "proof_broken", None):
+            chk.proof_broken = "C16/PropertiesCache.v"
+        chk.log("PropertiesCache.v: rc=%s closed=%d/%d %s" % (rc, len(closed), len(names), out[-1500:] if rc != 0 else ""))
+
+
+def part_b(chk, state, samples):
+    n = 300 if chk.tier == "quick" else 20000
+    ok, log = vlib.build_model("C16b")
+    if not ok:
+        chk.add_violation("tie:C16/model-build", "part (b): " + log[-2000:], found_input=False)
+        return None
+    ok, log, exe = vlib.build_harness("c16b")
+    if not ok:
+        chk.add_violation("tie:C16/harness-build", "part (b): " + log[-2000:], found_input=False)
+        return None
+    model = os.path.join(vlib.BIN, "model_c16b")
+    corpus = os.path.join(vlib.ROOT, "corpus", "C16b", "cases.tsv")
+    b = vlib.run_batch(chk, "%s corpus -in %s -out {out}" % (exe, corpus), model, "corpus_b")
+    if b:
+        vlib.digest_batch(chk, b[0], b[1], classify, state)
+    b = vlib.run_batch(chk, "%s gen -seed %d -n %d -out {out}" % (exe, chk.seed, n), model, "gen_b", timeout=3000)
+    if b:
+        vlib.digest_batch(chk, b[0], b[1], classify, state)
+        samples += [c[:600] for c in b[0][:2]]
+        tot = {"stored": 0, "hits": 0, "partial": 0, "steps": 0}
+        for (_, st, d) in b[1]:
+            if st == "ok":
+                for k, v in re.findall(r"(stored|hits|partial|steps)=(\d+)", d):
+                    tot[k] += int(v)
+        tot["histories"] = len(b[0])
+        tot["cache_fault_calls"] = sum(len(re.findall(r" (?:get_err|set_err|set_partial|evict_one|evict_all)\)", c)) for c in b[0])
+        tot["upstream_responses_with_errors"] = sum(len(re.findall(r"\(u \d+ \d+ \d+ [1-9]", c)) for c in b[0])
+        chk.coverage.setdefault("distribution", {})["part_b"] = tot
+    return (exe, model, n)
+
+
 def run(chk):
     n = 3000 if chk.tier == "quick" else 200000
-    chk.coverage["rule"] = RULE
+    chk.coverage["rule"] = RULE + RULE_B
     chk.assumptions += [
         "Coq 8.16.1 kernel (coqc, full .vo build); no native_compute; vm_compute only in Examples and refutation witnesses",
         "extraction with ExtrOcamlBasic only (no Extract Constant); ocamlfind ocamlopt 4.13.1; ocaml/common/prelude.ml + ocaml/c16/driver.ml",
@@ -33,6 +103,12 @@ def run(chk):
     except anchors.AnchorError as e:
         chk.add_violation("tie:C16/anchors", "anchor translator: %s" % e, found_input=False)
     chk.proof_side()
+    cache_properties(chk)
+    chk.assumptions += [
+        "part (b): harness/loaderlab + harness/cmd/c16b (plan generator, pointwise subgraph oracle, recording cache, key translation by recomputing "
+        "caching.Key(xxhash(rep), xxhash(header|0|footer))); ocaml/c16b/driver.ml; the cache layer C16.ModelCache over the C07 loader model "
+        "(hashes abstracted to the hashed bytes, cached values as JSON trees, the Cache is the lab's never-expiring map, serial fetch trees, single flight off)",
+    ]
     ok, log = vlib.build_model("C16")
     if not ok:
         chk.add_violation("tie:C16/model-build", log[-2000:], found_input=False)
@@ -61,7 +137,13 @@ def run(chk):
             "with_quote": sum(1 for c in b[0] if "\\22" in c),
         }
 
+    pb = part_b(chk, state, samples)
+
     def more(st):
+        if pb:
+            bb = vlib.run_batch(chk, "%s gen -seed %d -n %d -out {out}" % (pb[0], chk.seed * 1000 + 7, pb[2] * 10), pb[1], "more_b", timeout=3000)
+            if bb:
+                vlib.digest_batch(chk, bb[0], bb[1], classify, st)
         for k in range(1, 6):
             bb = vlib.run_batch(chk, "%s gen -seed %d -n %d -out {out}" % (exe, chk.seed * 1000 + k, n * 4), model, "more%d" % k)
             if bb:
